@@ -90,6 +90,21 @@ func genItems(r *run.Rng, layout string, n int) []rtree.BulkItem {
 		}
 		items[i] = rtree.BulkItem{Box: b, RecordID: i}
 	}
+	// the zero Box is a legitimate item (a point at the origin): plant it, and boxes with a
+	// corner at the origin, at the front / at random positions of the input order
+	if n > 0 && layout != "float" && r.Chance(1, 3) {
+		zero := rtree.Box{}
+		switch r.Intn(3) {
+		case 0:
+			items[0].Box = zero
+		case 1:
+			items[r.Intn(n)].Box = zero
+			items[r.Intn(n)].Box = zero
+		default:
+			items[r.Intn(n)].Box = rtree.Box{MinX: 0, MinY: 0, MaxX: float64(r.Intn(3)), MaxY: float64(r.Intn(3))}
+			items[0].Box = zero
+		}
+	}
 	return items
 }
 
@@ -138,6 +153,8 @@ func queries(r *run.Rng, items []rtree.BulkItem, m int, exact bool) []rtree.Box 
 	qs = append(qs, rtree.Box{MinX: -5000, MinY: -5000, MaxX: 5000, MaxY: 5000}) // enclosing
 	qs = append(qs, rtree.Box{MinX: 4500, MinY: 4500, MaxX: 4600, MaxY: 4600})   // disjoint
 	qs = append(qs, rtree.Box{MinX: 0, MinY: 0, MaxX: 0, MaxY: 0})               // degenerate
+	qs = append(qs, rtree.Box{MinX: -3, MinY: -3, MaxX: 0, MaxY: 0})             // corner-touching the origin
+	qs = append(qs, rtree.Box{MinX: -0.25, MinY: -0.25, MaxX: 0.25, MaxY: 0.25}) // around the origin
 	for i := 0; i < m && len(items) > 0; i++ {
 		it := items[r.Intn(len(items))].Box
 		switch r.Intn(7) {
